@@ -39,6 +39,23 @@ func c29chain(n, c uint32, peerOrder, table []uint32) *vconfig.ChainConfig {
 }
 
 func c29distinct(a []uint32) int {
+	// fast path: small indexes (always the case here) -> bitmask
+	var mask uint64
+	small := true
+	for _, x := range a {
+		if x >= 64 {
+			small = false
+			break
+		}
+		mask |= 1 << x
+	}
+	if small {
+		n := 0
+		for ; mask != 0; mask &= mask - 1 {
+			n++
+		}
+		return n
+	}
 	m := map[uint32]bool{}
 	for _, x := range a {
 		m[x] = true
@@ -131,13 +148,17 @@ func c29check(r *vh.Run, chain *vconfig.ChainConfig, seed vconfig.VRFValue, sour
 		bad("committers<2C+1", "%d distinct committers, want >= %d", nc, 2*C+1)
 		ok = false
 	}
-	member := map[uint32]bool{}
-	for _, p := range chain.Peers {
-		member[p.Index] = true
+	isMember := func(x uint32) bool {
+		for _, p := range chain.Peers {
+			if p.Index == x {
+				return true
+			}
+		}
+		return false
 	}
-	for _, l := range [][]uint32{p1, e1, c1} {
+	for _, l := range [3][]uint32{p1, e1, c1} {
 		for _, x := range l {
-			if !member[x] {
+			if !isMember(x) {
 				bad("non-member", "peer %d is not in the configuration", x)
 				ok = false
 			}
@@ -442,20 +463,41 @@ func c29partB(r *vh.Run, item *int) {
 	sort.SliceStable(chains, func(i, j int) bool { return c29tableKey(chains[i]) < c29tableKey(chains[j]) })
 	r.Set("B.tables", int64(len(chains)))
 	// seeds: only bytes 0..2 of the seed are read for tables of <=16 slots
-	// (<=8 slots: bytes 0..1).  Quick: all 2^16 two-byte seeds x byte2 in a
-	// 4-symbol alphabet on every table; thorough: all 2^24.
-	byte2 := []int{0x00, 0x5a, 0x80, 0xff}
+	// (<=8 slots: bytes 0..1).  Every table gets all 2^16 two-byte prefixes x
+	// a third byte from an alphabet (quick 2, thorough 16 symbols); thorough
+	// additionally runs ALL 2^24 prefixes on 8 of the tables with >8 slots
+	// (evenly spaced in the sorted list of tables).
+	byte2 := []int{0x00, 0xa5}
+	var all256 []int
+	for i := 0; i < 256; i++ {
+		all256 = append(all256, i)
+	}
 	if r.Thorough() {
-		byte2 = byte2[:0]
-		for i := 0; i < 256; i++ {
-			byte2 = append(byte2, i)
+		byte2 = []int{0x00, 0x01, 0x08, 0x0f, 0x10, 0x33, 0x55, 0x7f, 0x80, 0xa5, 0xaa, 0xc3, 0xcc, 0xf0, 0xfe, 0xff}
+	}
+	nbig := 0
+	for _, ch := range chains {
+		if len(ch.PosTable) > 8 {
+			nbig++
 		}
 	}
+	stride := (nbig + 7) / 8
+	if stride < 1 {
+		stride = 1
+	}
+	big, full := 0, int64(0)
 	for _, ch := range chains {
 		r.Need(len(ch.PosTable) <= 16 && len(ch.PosTable) >= int(ch.N), "table of %d slots", len(ch.PosTable))
 		b2 := byte2
 		if len(ch.PosTable) <= 8 {
 			b2 = []int{0} // byte 2 is never read
+			full++
+		} else {
+			if r.Thorough() && big%stride == 0 {
+				b2 = all256
+				full++
+			}
+			big++
 		}
 		for _, hi := range b2 {
 			*item++
@@ -481,6 +523,7 @@ func c29partB(r *vh.Run, item *int) {
 			}
 		}
 	}
+	r.Set("B.tables_with_all_readable_seed_bits", full)
 }
 
 func c29partC(r *vh.Run, item *int) {
@@ -560,8 +603,8 @@ func c29partC(r *vh.Run, item *int) {
 func TestVerif_C29(t *testing.T) {
 	r := vh.Start(t, "C29", "participants")
 	defer r.Finish()
-	r.Rule("real calcParticipantPeers/calcParticipant/getParticipantSelectionSeed. (A) for N in 4..8 (thorough: ..10, incl. N>5C+4) and every C with N>=3C+1: every order of first appearance of every non-empty subset of peers, realised by crafted position tables (32 slots; 600 slots to pass the 512-draw limit) under 3 fixed seeds, with chain.Peers ascending and descending when the fill loop runs; (B) every de-duplicated position table that the real GenesisChainConfig derives from stake multisets over {0,1,2,10^4,10^4+1,2^60} for (K,L,C) in {(4,8,1),(4,16,1),(5,10,1),(7,14,2),(7,14,1),(8,16,2)} x every seed prefix that such a table can read (all 2^16 two-byte prefixes; third byte: all 256 values in thorough, 4 in quick); (C) K=7,L=112|560 tables from 5 stake profiles x seeds from the real seed function over chained blocks x 4 proposers, plus 198 structured seeds. Oracle per call: C+1 distinct proposers, >=2C+1 distinct endorsers, >=2C+1 distinct committers, all members, two calls (and a call on fresh copies) equal. classes = (part, N, C, peers appeared, distinct endorsers, distinct committers)")
-	r.Bound(fmt.Sprintf("N<=%d; tables<=16 slots with all readable seed bits (thorough) ; L=112/560 with %d chained seeds per (table, proposer)", r.Pick(8, 10), r.Pick(1<<11, 1<<14)))
+	r.Rule("real calcParticipantPeers/calcParticipant/getParticipantSelectionSeed. (A) for N in 4..8 (thorough: ..10, incl. N>5C+4) and every C with N>=3C+1: every order of first appearance of every non-empty subset of peers, realised by crafted position tables (32 slots; 600 slots to pass the 512-draw limit) under 3 fixed seeds, with chain.Peers ascending and descending when the fill loop runs; (B) every de-duplicated position table that the real GenesisChainConfig derives from stake multisets over {0,1,2,10^4,10^4+1,2^60} for (K,L,C) in {(4,8,1),(4,16,1),(5,10,1),(7,14,2),(7,14,1),(8,16,2)} x every seed prefix that such a table can read (all 2^16 two-byte prefixes; third byte from a 2-symbol (quick) / 16-symbol (thorough) alphabet; tables of <=8 slots read two bytes only, so they get all readable seed bits; thorough also runs all 2^24 three-byte prefixes on 8 evenly spaced tables with >8 slots); (C) K=7,L=112|560 tables from 5 stake profiles x seeds from the real seed function over chained blocks x 4 proposers, plus 198 structured seeds. Oracle per call: C+1 distinct proposers, >=2C+1 distinct endorsers, >=2C+1 distinct committers, all members, two calls (and a call on fresh copies) equal. classes = (part, N, C, peers appeared, distinct endorsers, distinct committers)")
+	r.Bound(fmt.Sprintf("N<=%d; tables<=16 slots; L=112/560 with %d chained seeds per (table, proposer)", r.Pick(8, 10), r.Pick(1<<11, 1<<14)))
 	r.Assume("valid configuration: C>=1, N=len(Peers)>=3C+1, distinct peer indexes, every PosTable entry is a member")
 
 	var rc c29case
